@@ -120,7 +120,7 @@ func VC15DumbMemPutN() {
 
 func VC15DumbIO() {
 	n := vSymLen("len")
-	vAssume(vAnd(n >= 0, n <= 256))
+	vAssume(vAnd(n >= 0, n <= 65536))
 	dio := DumbIO(vBytesN("dio", n))
 	ref := DumbIO(vBytesN("dio", n))
 	a, b, v := vU8("a"), vU8("b"), vU8("v")
